@@ -66,6 +66,8 @@ def judge(case, query, pick):
         tags = ["stops-with-positive-gain-available"]
         if pos and all(b["kind"] == "dstar" for b in pos):
             tags.append("dstar-undervalued")
+        if pos and all(b["kind"] == "realloc" for b in pos) and case["nC"] >= 4:
+            tags.append("realloc-second-best")
         return False, (f"find_best_split returns no split (gain {pick['gain']!r}) although {pos[0]} has exact gain "
                        f"{pos[0]['gain']}/{L} > 0"), tuple(tags)
     if not match:
@@ -82,8 +84,8 @@ def judge(case, query, pick):
         nondstar_best = max((b["gain"] for b in cands if b["kind"] != "dstar"), default=None)
         if kinds == ["dstar"] and c["gain"] == nondstar_best:
             tags.append("dstar-undervalued")
-        if kinds == ["realloc"] and case["nC"] >= 4:
-            tags.append("realloc-second-best")
+        if case["nC"] >= 4 and all(b["kind"] == "realloc" for b in cands if b["gain"] > c["gain"]):
+            tags.append("realloc-second-best")        # every candidate that beats the pick is a reallocation (>= 3 possible targets)
         return False, (f"the code picks {c} but {bests[0]} has a larger exact gain ({best}/{L} > {c['gain']}/{L})"), tuple(tags)
     return True, "", ()
 
@@ -295,10 +297,14 @@ def run_traces(rep, pid, tier, rnd, budget):
         for tid, info in res["accepted"].items():
             if info.get("dev"):
                 devs += info["dev"]
-                if pid == "C08":        # named deviation actions = the known double-star defect inside a real fit
+                if pid == "C08":        # named deviation actions = the known defects of the search inside a real fit
                     m = meta[(n, d)][tid - 1]
-                    rep.violation(f"Kauri.fit took {info['dev']} step(s) only explained by the double-star gain defect: {m}",
-                                  m, tags=("dstar-gain-wrong", "dstar-undervalued", m["variant"]))
+                    if info["dev"] % 1000:
+                        rep.violation(f"Kauri.fit took {info['dev'] % 1000} step(s) only explained by the double-star gain defect: {m}",
+                                      m, tags=("dstar-gain-wrong", "dstar-undervalued", m["variant"]))
+                    if info["dev"] // 1000:
+                        rep.violation(f"Kauri.fit took {info['dev'] // 1000} step(s) only explained by the second-best reallocation "
+                                      f"target defect: {m}", m, tags=("realloc-second-best", m["variant"]))
         for inv, tid in res["inv_violations"]:
             m = meta[(n, d)][tid - 1] if tid else {}
             rep.violation(f"real Kauri.fit execution violates {inv}: {m}", {"meta": m, "trace": traces[tid - 1] if tid else None},
